@@ -680,7 +680,11 @@ fn collect_changes(
                     continue;
                 }
 
-                let new_entity = marker_added || visibility == Visibility::Gained;
+                // An entity without a mutation tick has never been sent to this client
+                // (e.g. an entity without components and a client that connected later).
+                let new_entity = marker_added
+                    || visibility == Visibility::Gained
+                    || ticks.mutation_tick(entity.id()).is_none();
                 if new_entity
                     || updates.changed_entity_added()
                     || removal_buffer.contains_key(&entity.id())
